@@ -23,6 +23,9 @@ type call struct {
 type recorder struct {
 	mu    sync.Mutex
 	calls []call
+	// onFirst, if set, is called once at the next recorded invocation (the harness uses it to
+	// cancel the context of the request being served from inside the first handler that runs)
+	onFirst func()
 }
 
 func (r *recorder) take() []call {
@@ -46,7 +49,12 @@ func (r *recorder) rec(method string, args ...any) any {
 	}
 	r.mu.Lock()
 	r.calls = append(r.calls, call{Method: method, Args: string(b)})
+	f := r.onFirst
+	r.onFirst = nil
 	r.mu.Unlock()
+	if f != nil {
+		f()
+	}
 	return map[string]any{"m": method, "a": json.RawMessage(b)}
 }
 
